@@ -3,6 +3,8 @@ package rules
 import (
 	"fmt"
 	"go/constant"
+	"go/token"
+	"go/types"
 
 	"golang.org/x/tools/go/ssa"
 
@@ -348,4 +350,106 @@ func (w *writerA) continuation(rule string) {
 			r.Check(rule, shortFn(fn), "store-pos-reset", st.Pos(), isC && k.Value != nil && k.Int64() == hdrSize, "a new frame starts at writeBuf[maxFrameHeaderSize]")
 		}
 	}
+}
+
+// maskImpl: the only raw-pointer store of the package (word-wise XOR in
+// maskBytes) stays inside the slice: address = &b[0] + i with i a counter that
+// starts at 0, advances by the word size W and is tested against
+// (len(b)/W)*W for the same b, W = sizeof(uintptr) of the build variant.
+func (w *writerA) maskImpl(rule string) {
+	c, r := w.c, w.c.R
+	fn := c.fn("maskBytes")
+	W := c.P.Pkg.TypesSizes.Sizeof(types.Typ[types.Uintptr])
+	ok, why := true, fmt.Sprintf("word loop: &b[0] + i, i = 0, %d, ... < (len(b)/%d)*%d", W, W, W)
+	n := 0
+	usesUnsafe := false
+	for _, b := range fn.Blocks {
+		for _, in := range b.Instrs {
+			if st, isSt := in.(*ssa.Store); isSt {
+				if _, isConv := st.Addr.(*ssa.Convert); isConv {
+					usesUnsafe = true
+				}
+			}
+		}
+	}
+	if !usesUnsafe {
+		r.Pass(rule, shortFn(fn), "no-raw-pointer-store", fn.Pos(), "this build variant masks byte-wise only")
+		return
+	}
+	o := core.Opts{Unroll: 0, LoopInvariants: true}
+	c.explore(rule, fn, o, func(p *core.Path) {
+		for i := range p.Events {
+			ev := &p.Events[i]
+			if ev.Kind != core.EvStore || ev.Addr.Kind != core.KConv {
+				continue
+			}
+			n++
+			// peel conversions down to the address arithmetic
+			a := ev.Addr
+			for a.Kind == core.KConv {
+				a = a.Args[0]
+			}
+			if a.Kind != core.KBin || a.Op != token.ADD {
+				ok, why = false, "raw pointer store whose address is not base + offset"
+				continue
+			}
+			base, off := a.Args[0], a.Args[1]
+			peel := func(t *core.Term) *core.Term {
+				for t.Kind == core.KConv {
+					t = t.Args[0]
+				}
+				return t
+			}
+			base, off = peel(base), peel(off)
+			if base.Kind != core.KIndexAddr {
+				base, off = off, base
+			}
+			if base.Kind != core.KIndexAddr {
+				ok, why = false, "raw pointer store not based on an element address"
+				continue
+			}
+			if z, isC := base.Args[1].Int64(); !isC || z != 0 {
+				ok, why = false, "raw pointer base is not &b[0]"
+			}
+			B := base.Args[0]
+			if off.Kind != core.KFresh {
+				ok, why = false, "raw pointer offset is not the loop counter"
+				continue
+			}
+			phi, isPhi := off.Ref.(*ssa.Phi)
+			if !isPhi {
+				ok, why = false, "raw pointer offset is not a loop counter"
+				continue
+			}
+			stepOK, initOK := true, false
+			body := loopBody(phi.Block())
+			for k, e := range phi.Edges {
+				if !body[phi.Block().Preds[k]] {
+					if kc, isK := e.(*ssa.Const); isK && kc.Value != nil && kc.Int64() == 0 {
+						initOK = true
+					}
+					continue
+				}
+				lo, hi, good := stepOfSSA(e, phi, 0, map[ssa.Value]bool{})
+				if !good || lo != W || hi != W {
+					stepOK = false
+				}
+			}
+			if !initOK || !stepOK {
+				ok, why = false, fmt.Sprintf("the word-loop counter does not run 0, %d, %d, ...", W, 2*W)
+			}
+			// guard: off < (len(B)/W)*W
+			x := p.X
+			wT := x.T.Int(W)
+			bound := x.Bin(token.MUL, x.Bin(token.QUO, x.Len(B), wT, types.Typ[types.Int]), wT, types.Typ[types.Int])
+			if !hasLit(p, ev.NLits, true, func(t *core.Term) bool { return t.Kind == core.KLt && t.Args[0] == off && t.Args[1] == bound }) {
+				ok, why = false, fmt.Sprintf("the word store is not guarded by i < (len(b)/%d)*%d for the slice whose &b[0] is used", W, W)
+			}
+			// stored width
+			if pt, isP := ev.Addr.Type.Underlying().(*types.Pointer); !isP || c.P.Pkg.TypesSizes.Sizeof(pt.Elem()) != W {
+				ok, why = false, "the raw store is wider than the loop step"
+			}
+		}
+	})
+	r.Check(rule, shortFn(fn), "word-loop-stays-inside-slice", fn.Pos(), ok && n > 0, why)
 }
